@@ -237,6 +237,7 @@ class C20(Spec):
     stubs = ["robotpy_ext.misc.crc7._crc7_table replaced by a z3 term built from the real table contents (ITE chain) or an uninterpreted function (length induction)"]
     assumptions = ["message bytes are integers in [0,255] (bytes / bytearray / list of ints)"]
     outside = ["data items outside [0,255] (IndexError / other table rows are not part of the statement)",
+               "concurrent calls from several threads (a table built lazily and published half-filled is invisible to any sequential history: seeded/C20-P)",
                "error-detection consequences are discharged on 16-byte messages; longer messages follow from linearity + the bijection of the zero-byte step (argument, not discharged)"]
 
     def jobs(self, tier):
